@@ -359,7 +359,7 @@ class Parser:
 
     def parse_integer_literal(self, stream: TokenStream) -> Expression:
         value = stream.current.value
-        if value.startswith("0") and len(value) > 1:
+        if self._has_leading_zero(value):
             raise JSONPathSyntaxError("invalid integer literal", token=stream.current)
 
         # Convert to float first to handle scientific notation.
@@ -372,7 +372,7 @@ class Parser:
 
     def parse_float_literal(self, stream: TokenStream) -> Expression:
         value = stream.current.value
-        if value.startswith("0") and len(value.split(".")[0]) > 1:
+        if self._has_leading_zero(value):
             raise JSONPathSyntaxError("invalid float literal", token=stream.current)
 
         try:
@@ -381,6 +381,16 @@ class Parser:
             raise JSONPathSyntaxError(
                 "invalid float literal", token=stream.current
             ) from err
+
+    @staticmethod
+    def _has_leading_zero(value: str) -> bool:
+        """Return `True` if the integer part of _value_ has a leading zero."""
+        digits = value[1:] if value.startswith("-") else value
+        for i, ch in enumerate(digits):
+            if ch in ".eE":
+                digits = digits[:i]
+                break
+        return len(digits) > 1 and digits.startswith("0")
 
     def parse_prefix_expression(self, stream: TokenStream) -> Expression:
         tok = stream.next_token()
